@@ -26,7 +26,7 @@ mvars == <<beh, finfo, genRank>>
 vars == <<evars, mvars>>
 
 Ranks == 0..MaxRank
-Stream(r) == [id |-> ToString(r), rank |-> r]
+Stream(r) == [id |-> ToString(r), src |-> "buf", rank |-> r]
 MCLess(a, b) == a.rank < b.rank
 
 Obs(sig, site, ended, nfw) == [sig |-> sig, site |-> site, msg |-> site, ended |-> ended, nfw |-> nfw, draws |-> <<>>]
@@ -66,7 +66,7 @@ SeqsOf(S) == { s \in [1..Cardinality(S) -> S] : \A i, j \in 1..Cardinality(S) : 
 PrunesTo(r, q) == q <= r /\ (Design = "repaired" => (beh[q].sig = "unset" \/ beh[q] = beh[r]))
 
 List == /\ pc = "list"
-        /\ \E s \in SeqsOf(Files) : Do(V_FFList(s), E_FFList(s))
+        /\ \E s \in SeqsOf(Files) : Do(V_FFList(s), E_FFList(s, seed))
         /\ UNCHANGED mvars
 
 \* pinned: a fail file whose test case now passes is dropped without a log line
